@@ -133,6 +133,25 @@ def callee_shared(family, class_names, entry):
     return False
 
 
+# dataset id -> set of lock contexts (tuples of lock ids held, innermost last) seen at its accesses in worker bodies
+ACCESS_LOCKS = {}
+
+
+def lock_class_map():
+    """Which lock guards each dataset: the single lock that is the whole lock context of every access to it; 90 + r (no such lock
+    exists, so the guard check fails) when there is none or the contexts disagree."""
+    out = {}
+    for r in sorted(set(RES.values())):
+        ctxs = ACCESS_LOCKS.get(r, set())
+        if not ctxs:
+            out[r] = r            # never accessed by a worker: irrelevant, keep the identity
+        elif len(ctxs) == 1 and len(next(iter(ctxs))) == 1:
+            out[r] = next(iter(ctxs))[0]
+        else:
+            out[r] = 90 + r
+    return out
+
+
 class Worker:
     """Translate a worker body into the stmt IR (as Coq text)."""
 
@@ -140,6 +159,7 @@ class Worker:
         self.inline = inline or {}      # call text -> already translated stmt list (Coq text list)
         self.shared = set(SHARED_BASES) | set(shared_names)
         self.callee_writes = callee_writes or (lambda recv, meth: False)   # does recv.meth(...) write state shared between blocks?
+        self.lock_stack = []            # lock ids held (with-blocks and explicit acquire) at the statement being translated
 
     def expr_stmts(self, node):
         """IR statements for evaluating an expression / simple statement."""
@@ -151,9 +171,12 @@ class Worker:
             if isinstance(c.func, ast.Attribute) and ast.unparse(c.func.value) in LOCKS:
                 if c.func.attr == 'acquire':
                     out.append(f'SAcquire {LOCKS[ast.unparse(c.func.value)]}')
+                    self.lock_stack.append(LOCKS[ast.unparse(c.func.value)])
                     continue
                 if c.func.attr == 'release':
                     out.append(f'SRelease {LOCKS[ast.unparse(c.func.value)]}')
+                    if LOCKS[ast.unparse(c.func.value)] in self.lock_stack:
+                        self.lock_stack.remove(LOCKS[ast.unparse(c.func.value)])
                     continue
             # dataset access: a call whose receiver or arguments mention a shared dataset
             mentioned = set()
@@ -164,6 +187,7 @@ class Worker:
                         mentioned.add(RES[nm])
             for r in sorted(mentioned):
                 out.append(f'SAccess {r}')
+                ACCESS_LOCKS.setdefault(r, set()).add(tuple(self.lock_stack))
             # a method of an object shared between blocks (the reader `self`, the `model`) that stores to that object
             if isinstance(c.func, ast.Attribute) and isinstance(c.func.value, ast.Name) and c.func.value.id in self.shared \
                     and self.callee_writes(c.func.value.id, c.func.attr):
@@ -191,7 +215,13 @@ class Worker:
 
     def stmt(self, s):
         if isinstance(s, ast.With):
-            inner = self.stmts(s.body)
+            pushed = [LOCKS[ast.unparse(item.context_expr)] for item in s.items if ast.unparse(item.context_expr) in LOCKS]
+            self.lock_stack += pushed
+            try:
+                inner = self.stmts(s.body)
+            finally:
+                for l in pushed:
+                    self.lock_stack.remove(l)
             for item in reversed(s.items):
                 nm = ast.unparse(item.context_expr)
                 if nm in LOCKS:
@@ -508,6 +538,11 @@ Definition opens : list (bool * bool) := {lst([f"({b(r[3])}, {b(r[4])})" for r i
 Definition cli_aborts : list bool := {lst([b(x) for x in cli])}.
 (* every lock is created exactly once (per object / per call) from threading.Lock() *)
 Definition locks_ok : bool := {b(locks_ok())}.
+(* the lock under which each dataset is accessed by the worker bodies above (dataset ids: 0 source, 1 reference, 2 corrected, 3 parameter,
+   4 parameter image read by stats; lock ids: 0 _src_lock, 1 _ref_lock, 2 _corr_lock, 3 _param_lock, 4 read_lock).  90 + r = no single lock *)
+Definition lock_class (r : nat) : nat := match r with {" | ".join(f"{r} => {c}" for r, c in sorted(lock_class_map().items()))} | _ => r end.
+(* a worker program viewed through that map: what the lock discipline (Conc.Sem.guarded) is checked on *)
+Definition guard_view (p : list stmt) : list stmt := relabel_prog lock_class p.
 (* process -> _out_files -> _set_corr/param_metadata -> _set_metadata, all forwarding kwargs: every effective setting becomes a FUSE_KEY tag *)
 Definition tags_plumbing : bool := {b(tags_plumbing())}.
 '''
